@@ -8,7 +8,8 @@ from .worlds import make_world
 from .scenario import ServerApp, _config_from_plan
 from .clientworld import make_client_world
 from .gen import ticks, Payloads
-from .oracles import V, EPS, _short
+from .oracles import V, _short
+from . import oracles as _O
 
 
 class IHistory:
@@ -55,6 +56,8 @@ def run_interop_scenario(plan, sched_values=None, sched_seed=0):
         }
         h.digest = k.log_digest()
         h.sched_digest = k.sched_digest.hexdigest()
+        from . import oracles as _o
+        _o.EPS = _o.EPS0 + k.stall_total
     finally:
         h.leaked = k.shutdown()
         h.cw.close()
@@ -210,7 +213,7 @@ def check_interop(h):
             # gets round to reporting 'transport error' - or whether the
             # application's own disconnect() comes first - is secondary)
             if any('Unexpected packet from server' in str(m[3]) and
-                   abs(m[1] - req.t_resp) <= EPS for m in h.cw.logs):
+                   abs(m[1] - req.t_resp) <= _O.EPS for m in h.cw.logs):
                 out.append(V('any-burst-size',
                              '%s|server-burst-over-16-aborts-client' % pair,
                              'the server answered poll %d with %d packets '
@@ -359,7 +362,7 @@ def _direction(pair, name, sent, got, t_sender_end, t_recv_end, end, slack,
     keyf = (lambda e: (e.get('spawn_seq') or 0, e['seq']))
     recv_order = sorted(idxs, key=lambda x: keyf(got[x[2]]))
     ts = [x[1] for x in recv_order]
-    if any(ts[i] > ts[i + 1] + EPS for i in range(len(ts) - 1)):
+    if any(ts[i] > ts[i + 1] + _O.EPS for i in range(len(ts) - 1)):
         out.append(V('in-order', '%s|%s|reordered' % (pair, name),
                      '%s: messages were dispatched in an order different '
                      'from the order they were sent in' % name))
